@@ -1,4 +1,6 @@
 """static / class methods, super(), truthiness of objects and Optional objects."""
+import functools
+
 
 
 class OBase:
@@ -129,6 +131,26 @@ class OPair:
     @property
     def big(self):
         return self.a > 10
+
+    @functools.cached_property
+    def scaler(self):
+        # round 4: a cached_property that returns a callable-like object is read (contract applied), then used
+        return OScaler(self.a)
+
+
+class OScaler:
+    def __init__(self, k):
+        self.k = k
+
+    def __call__(self, x):
+        return self.k * x
+
+    def scale(self, x):
+        return self.k * x
+
+
+def use_cached(p, x):
+    return p.scaler.scale(x) + p.scaler.scale(1)
 
 
 def use_prop(p):
